@@ -137,7 +137,8 @@ class C11(Check):
                 if x < 0.2:
                     ops.append({"op": "bad", "kind": w.choice(["mask_none", "mask_enum", "msg_list", "msg_short", "mask_short", "msg_str"]), "msg": msg})
                 elif x < 0.6:
-                    ops.append({"op": "gen", "msg": msg, "mask": w.randrange(2), "container": w.choice(["bytes", "bytearray", "bytearray", "memoryview"]),
+                    ops.append({"op": "gen", "msg": msg, "mask": w.randrange(2), "container": w.choice(["bytes", "bytearray", "bytearray", "memoryview", "kept"]),
+                                "maskc": w.choice(["bytearray", "bytearray", "bytes", "list", "tuple", "np.uint8", "np.int64", "np.uint16", "array.H", "array.B"]),
                                 "corrupt": [[w.randrange(12), w.randrange(1, 256)] for _ in range(w.choice([0, 1, 2, 3]))]})
                 else:
                     ops.append({"op": "chk", "msg": msg, "mask": w.randrange(2), "container": w.choice(["bytes", "bytearray"]),
@@ -234,11 +235,26 @@ class C11(Check):
                 got = RS.log_multiply(a, b)
                 if got != gmul(a, b):
                     fail("C11.field-multiplication", "log_multiply", f"log_multiply({a},{b}) = {got}, GF(2^8) product is {gmul(a, b)}", {"mul": [a, b], "ops": []})
+                if (a * 131 + b) % 4 == 0:  # a quarter of the pairs also as numpy scalars (what indexing a uint8 array yields)
+                    import numpy
+
+                    got = int(RS.log_multiply(numpy.uint8(a), numpy.uint8(b)))
+                    res["evals"] += 1
+                    if got != gmul(a, b):
+                        fail("C11.field-multiplication", "log_multiply:numpy.uint8", f"log_multiply(numpy.uint8({a}), numpy.uint8({b})) = {got}, GF(2^8) product is {gmul(a, b)}",
+                             {"mul": [a, b], "np": True, "ops": []})
             res["cov"].add(f"seam|{a0 >> 12}")
             res["ops"] = a1 - a0
         elif task == "ops":
             if "mul" in case:
                 a, b = case["mul"]
+                if case.get("np"):
+                    import numpy
+
+                    got = int(RS.log_multiply(numpy.uint8(a), numpy.uint8(b)))
+                    if got != gmul(a, b):
+                        fail("C11.field-multiplication", "log_multiply:numpy.uint8", f"log_multiply(numpy.uint8({a}), numpy.uint8({b})) = {got}, GF(2^8) product is {gmul(a, b)}",
+                             {"mul": [a, b], "np": True, "ops": []})
                 got = RS.log_multiply(a, b)
                 res["evals"] += 1
                 if got != gmul(a, b):
@@ -333,6 +349,7 @@ class C11(Check):
         from okdmr.dmrlib.etsi.layer2.elements.crc_masks import CrcMasks
 
         mask_objs = [bytearray.fromhex(m) for m in case["masks"]]  # the caller keeps its masks in re-used mutable buffers
+        kept = bytearray(9)
         mask_vals = [bytes.fromhex(m) for m in case["masks"]]
         for i, op in enumerate(case["ops"]):
             msg = bytes.fromhex(op["msg"])
@@ -359,18 +376,36 @@ class C11(Check):
             mv = mask_vals[mi]
             want = self._ref_codeword(msg, mv)
             res["evals"] += 1
-            cont = {"bytes": bytes, "bytearray": bytearray, "memoryview": lambda b: memoryview(bytes(b))}[op["container"]]
+            import array as _array
+
+            import numpy as _np
+
+            if op["container"] == "kept":
+                # the caller keeps ONE 9-octet bytearray for its messages and edits it in place from call to call
+                kept[:] = msg
+                carg = kept
+            else:
+                carg = {"bytes": bytes, "bytearray": bytearray, "memoryview": lambda b: memoryview(bytes(b))}[op["container"]](msg)
+            cont = {"bytes": bytes, "bytearray": bytearray, "memoryview": lambda b: memoryview(bytes(b)), "kept": bytearray}[op["container"]]
+            mc = op.get("maskc", "bytearray")
+            marg = mask_objs[mi] if mc == "bytearray" else {
+                "bytes": lambda: mv, "list": lambda: list(mv), "tuple": lambda: tuple(mv), "np.uint8": lambda: _np.array(list(mv), dtype=_np.uint8),
+                "np.int64": lambda: _np.array(list(mv)), "np.uint16": lambda: _np.array(list(mv), dtype=_np.uint16), "array.H": lambda: _array.array("H", list(mv)),
+                "array.B": lambda: _array.array("B", list(mv))}[mc]()
             site = op["op"]
             if op["op"] == "gen":
                 try:
-                    w = RS.generate(cont(msg), mask_objs[mi])
+                    w = RS.generate(carg, marg)
                 except Exception as e:
                     if op["container"] == "memoryview":
                         continue  # not every container type is supported; bytes and bytearray are
                     res.violate("C11.history", site, f"call #{i}: generate({op['msg']}, mask {case['masks'][mi]}) as {op['container']} raised {type(e).__name__}: {e}", at=i)
                     return
                 if bytes(w) != want:
-                    res.violate("C11.history", site, f"call #{i}: generate({op['msg']}, mask {case['masks'][mi]}) as {op['container']} = {bytes(w).hex()}, reference codeword {want.hex()}", at=i)
+                    res.violate("C11.history", site, f"call #{i}: generate({op['msg']}, mask {case['masks'][mi]} as {mc}) as {op['container']} = {bytes(w).hex()}, reference codeword {want.hex()}", at=i)
+                    return
+                if list(marg) != list(mv) or bytes(carg) != msg:
+                    res.violate("C11.history", "argument-buffer", f"call #{i}: generate changed one of its argument buffers (mask as {mc}: {list(marg)}, message: {bytes(carg).hex()})", at=i)
                     return
                 if bytes(mask_objs[mi]) != mv:
                     res.violate("C11.history", "mask-buffer", f"call #{i}: generate changed the caller's mask buffer {case['masks'][mi]} -> {bytes(mask_objs[mi]).hex()}", at=i)
